@@ -18,12 +18,11 @@
 int nondet_int(void);
 int sched[K]; int nsteps;
 
-/* CHOLMOD dense objects: really allocated, registered with the race detector */
+static cholmod_dense xc_desc[PS_MAXT]; static vr64 xc_data[PS_MAXT][NF];
+/* CHOLMOD dense objects: static per thread, registered with the race detector */
 char* ir_cholmod_l_allocate_dense(uint64_t nrow, uint64_t ncol, uint64_t d, uint32_t xtype, char* c){ (void)xtype; (void)c;
   /* one descriptor per thread (see the pool allocator in pthread_seq.c) */
-  static cholmod_dense xc_desc[PS_MAXT];
-  cholmod_dense* D = &xc_desc[ps_cur]; D->nrow = nrow; D->ncol = ncol; D->d = d; D->nzmax = d * ncol; D->xtype = CHOLMOD_REAL; D->dtype = CHOLMOD_DOUBLE; D->z = 0;
-  static vr64 xc_data[PS_MAXT][NF];
+  cholmod_dense* D = &xc_desc[ps_cur]; vh_access((char*)D, sizeof *D, 1); D->nrow = nrow; D->ncol = ncol; D->d = d; D->nzmax = d * ncol; D->xtype = CHOLMOD_REAL; D->dtype = CHOLMOD_DOUBLE; D->z = 0;
   if (D->nzmax > NF) { __CPROVER_assert(0, "abstraction insufficient: trial vector longer than NF"); __CPROVER_assume(0); }
   D->x = xc_data[ps_cur]; ps_region((char*)D->x, D->nzmax * 8); return (char*)D; }
 uint32_t ir_cholmod_l_free_dense(char* Dp, char* c){ (void)c; cholmod_dense** D = (cholmod_dense**)Dp; if (D && *D) { ps_unregion((char*)(*D)->x); *D = 0; } return 1; }
@@ -50,6 +49,7 @@ static void setup(void){
   nF = NF; nH1 = 0; residual = UF_MK(UF_SYM, 98); calcs = 0;
   ps_conf_nthreads = NW;
   ps_reset(&C0.h);
+  for (int t = 1; t < PS_MAXT; t++) { ps_region((char*)&xc_desc[t], sizeof xc_desc[t]); ps_region((char*)xc_data[t], sizeof xc_data[t]); }
   ps_region((char*)xv, sizeof xv); ps_region((char*)xfv, sizeof xfv); ps_region((char*)F, sizeof F); ps_region((char*)H1, sizeof H1);
   ir_walk_descents__init(&C0, dummyA, dummyB, (char*)&X, (char*)&XF, (char*)F, (char*)&nF, (char*)H1, (char*)&nH1, (char*)&residual, (char*)&calcs, 0, dummyC);
 }
@@ -79,6 +79,9 @@ void harness(void){
   __CPROVER_assert(!ps_all_done(), "witness: a complete run is reachable");
 #else
   __CPROVER_assert(ps_all_done(), "scheduler step bound K sufficient");
+#endif
+#ifdef PS_RACE
+  __CPROVER_assert(!ps_race, "C12 data race: conflicting accesses of two threads that are not ordered by happens-before");
 #endif
   collect(&A);
 #ifdef DETERMINISM
